@@ -253,6 +253,87 @@ func c13Make(c c13Case) (*c13Entry, *Violation) {
 	return e, nil
 }
 
+// c13Rewrite: the directory already holds a finished entry for the same key (with another body, longer or shorter)
+// when a writer starts over. Whatever the file holds between CreateLevel and Close - the state an interrupted
+// rewrite leaves behind - must not open; after Close the entry holds the new body.
+func c13Rewrite(c c13Case) *Violation {
+	dir := filepath.Join(c13Dir(), "rw")
+	os.RemoveAll(dir)
+	os.MkdirAll(dir, 0o755)
+	defer os.RemoveAll(dir)
+	rsum, dsum := c13DigestsFor(c.Seed, c.Hash)
+	oldBody := c13Body(c.Body, c.Off, c.Seed+7) // the earlier entry: c.Off bytes
+	newBody := c13Body(c.Body, c.Len, c.Seed)
+	what := fmt.Sprintf("rewrite of an entry of %d bytes with %d bytes (%s, level %d, %d chunks)", len(oldBody), len(newBody), c.Body, c.Level, c.Chunks)
+	probe := func(stage string, wantBody []byte) *Violation {
+		var got []byte
+		var err, rerr error
+		if pi := guard(func() {
+			f, e := cache.Open(dir, c13NewHash(c.Hash), rsum, dsum)
+			err = e
+			if e == nil {
+				got, rerr = io.ReadAll(f)
+			}
+			if f != nil {
+				f.Close()
+			}
+		}); pi != nil {
+			return panicViolation("Open ("+what+", "+stage+")", pi)
+		}
+		if wantBody == nil {
+			if err == nil {
+				return viol("opened-unfinished", "%s: %s the entry opens (and yields %d bytes) although the writer has not finished", what, stage, len(got))
+			}
+			return nil
+		}
+		if err != nil || rerr != nil || !bytes.Equal(got, wantBody) {
+			return viol("wrong-bytes", "%s: %s Open gives error %v / %v and %d bytes, want %d", what, stage, err, rerr, len(got), len(wantBody))
+		}
+		return nil
+	}
+	var v *Violation
+	if pi := guard(func() {
+		f, err := cache.CreateLevel(dir, c13NewHash(c.Hash), rsum, dsum, c.Level)
+		if err != nil {
+			v = viol("create", "CreateLevel failed: %v", err)
+			return
+		}
+		f.Write(oldBody)
+		if err := f.Close(); err != nil {
+			v = viol("close", "Close failed: %v", err)
+			return
+		}
+		if v = probe("after the first writer closed", oldBody); v != nil {
+			return
+		}
+		g, err := cache.CreateLevel(dir, c13NewHash(c.Hash), rsum, dsum, c.Level)
+		if err != nil {
+			v = viol("create", "CreateLevel over an existing entry failed: %v", err)
+			return
+		}
+		if v = probe("right after the second writer was created", nil); v != nil {
+			return
+		}
+		for k, cut := range c13Splits(len(newBody), c.Chunks) {
+			if _, err := g.Write(newBody[cut[0]:cut[1]]); err != nil {
+				v = viol("write", "Write failed: %v", err)
+				return
+			}
+			if v = probe(fmt.Sprintf("after write %d of the second writer", k+1), nil); v != nil {
+				return
+			}
+		}
+		if err := g.Close(); err != nil {
+			v = viol("close", "Close of the second writer failed: %v", err)
+			return
+		}
+		v = probe("after the second writer closed", newBody)
+	}); pi != nil {
+		return panicViolation(what, pi)
+	}
+	return v
+}
+
 // c13WriteFault: the writer runs in a child process whose file-size limit makes a Write or the final flush fail.
 // Whatever the writer reports, an entry that opens must read back exactly the body; and a writer that reported
 // success must have left an entry that opens.
@@ -427,6 +508,9 @@ func c13Check(c c13Case) *Violation {
 	if c.Fault == "write-limit" {
 		return c13WriteFault(c)
 	}
+	if c.Fault == "rewrite" {
+		return c13Rewrite(c)
+	}
 	e, v := c13Make(c)
 	if v != nil {
 		return v
@@ -564,7 +648,7 @@ func c13Classify(c c13Case) (bool, []string) {
 			labels = append(labels, "flip-body")
 			nt = true
 		}
-	case "crash-body", "crash-header", "live", "write-limit":
+	case "crash-body", "crash-header", "live", "write-limit", "rewrite":
 		nt = true
 	case "prefix", "tail":
 		nt = c.Off >= 3*c13NewHash(c.Hash).Size() || c.Fault == "tail"
@@ -730,6 +814,14 @@ func TestC13(t *testing.T) {
 					for j := 0; j <= 60; j++ {
 						if !try(mk("crash-header", j, 0)) {
 							return
+						}
+					}
+					// a writer that starts over while a finished entry of the same key (shorter, equal, longer) exists
+					if level == levels[0] && seed == seeds[0] {
+						for _, oldLen := range []int{0, 1, b.n / 2, b.n, b.n + 1, 2*b.n + 100, 70000} {
+							if !try(mk("rewrite", oldLen, 0)) {
+								return
+							}
 						}
 					}
 					// write faults: the file-size limit of the writer process ends somewhere in the placeholder, in the
